@@ -60,6 +60,7 @@ theorem init_topInv (p : Prog) : TopInv p (initState p) := by
   · intro m hk _ hst; exact absurd ((init_fields p m).2.2.2.2.2 hk) hst
   · intro m _ _ _ hruns; exact absurd (init_fields p m).2.2.2.2.1 hruns
   · intro w e he; rw [(init_fields p w).2.2.1] at he; cases he
+  · intro w a ha; rw [(init_fields p w).1] at ha; cases ha
 
 theorem ready_nil {p : Prog} {s : State} (h : InvR p s) (hne : noEff p = true) : ready s = [] := by
   unfold ready
@@ -91,7 +92,7 @@ theorem read_spec {p : Prog} (hwf : WF p = true) (hp : MemoOK p) (hne : noEff p 
     simp only
     refine ⟨h, fun hm => ?_⟩
     have hc := (h.inv.sigOk m hm hk).1
-    rw [h.inv.clean_correct hwf hne m hm hc]; rfl
+    rw [h.inv.clean_correct hwf m hm (by rw [hk]; simp) hc]; rfl
   | memo =>
     simp only
     have hm : m < p.length := h.inv.memo_lt hk
@@ -103,7 +104,7 @@ theorem read_spec {p : Prog} (hwf : WF p = true) (hp : MemoOK p) (hne : noEff p 
     refine ⟨⟨post.inv, post.obs.trans h.obs, fun i => (post.running i).trans (h.idle i),
       post.frame.log h.log⟩, fun _ => ?_⟩
     have hc := post.clean hk
-    rw [post.inv.clean_correct hwf hne m hm hc]
+    rw [post.inv.clean_correct hwf m hm (by rw [post.frame.kind, hk]; simp) hc]
     show specVal p s' m = specVal p s m
     apply specVal_congr
     intro i v hi
